@@ -15,8 +15,8 @@ MANIFEST = {
     "technique": 'Lean 4 proof over the executable world model; differential correspondence of whole histories against the real FakeTRX objects; black-box property reference as failing-input oracle',
     "design_ref": "DESIGN.md section 5 C12",
 }
-CORR_PROFILES = ['power', 'mixed']
-ORACLE_PROFILES = ['power', 'mixed']
+CORR_PROFILES = ['power', 'mixed', 'family']
+ORACLE_PROFILES = ['power', 'mixed', 'family']
 
 
 def gen(run):
